@@ -23,6 +23,7 @@ FLAVOURS = {
 FAMILIES = {
     "lrcow": {"src": "lrcow.cpp"},
     "locks": {"src": "locks.cpp"},
+    "rcu": {"src": "rcu.cpp"},
 }
 
 EXPLORATION_NOTE = ("Trusted base: the vrt runtime's model of std::mutex/timed_mutex/shared_mutex/shared_timed_mutex/condition_variable/atomic "
@@ -48,6 +49,35 @@ PROPS = {
                 "invariant decide 'readers and writers never overlap'; generated two-reader rendezvous pairs and the model mutex's ground truth decide 'readers can share'. Exploration only.",
         "assumptions": ["vrt shared-mutex model follows [thread.sharedmutex]", "programs bounded to 4 fibers x 4/6 operations"],
         "stages": [{"family": "locks", "flavour": "plain", "target": "C02", "cases": (400000, 6000000), "maxsec": (40, 400)}],
+    },
+    "C05": {
+        "level": "exploration",
+        "technique": "property-based testing over (reader/writer/short-handle program x schedule) with a quarantining allocator; oracle = any step into a freed block (modelled atomics, iterator dereference) plus the direct reclamation rule at every deallocation",
+        "design_ref": "DESIGN.md §5 C05",
+        "text": "Generated rcu_list clients (pausing readers, erasing and pushing writers, short-lived handles that drive reclamation) run under generated schedules; the list allocates through a quarantining "
+                "allocator, every modelled atomic and every iterator dereference checks that it does not touch a freed block, and each node deallocation is checked against the set of handles that were "
+                "registered before the erase. Exploration only.",
+        "assumptions": ["'in use when the erase happened' is read as: the handle's first access returned before erase() was called", "4 fibers x 4/6 operations, lists of <= ~10 elements"],
+        "stages": [{"family": "rcu", "flavour": "plain", "target": "C05", "cases": (600000, 8000000), "maxsec": (45, 420)}],
+    },
+    "C12": {
+        "level": "exploration",
+        "technique": "model-based property testing: sequential command sequences against a reference list after every command, and concurrent traversals checked with position keys taken from the writers' mutex order (strictly increasing, stable elements visited, final contents equal the model)",
+        "design_ref": "DESIGN.md §5 C12",
+        "text": "Sequential generated command sequences are compared with a reference list after every command; concurrent generated programs check every traversal for list order, no duplicates, no invented values, "
+                "no skipped stable element, and the final contents against the model in mutex order. Exploration only.",
+        "assumptions": ["unique element values", "4 fibers x 4/6 operations (concurrent), up to 12/24 commands (sequential)"],
+        "stages": [{"family": "rcu", "flavour": "plain", "target": "C12s", "cases": (300000, 3000000), "maxsec": (20, 200)},
+                   {"family": "rcu", "flavour": "plain", "target": "C12", "cases": (500000, 6000000), "maxsec": (40, 400)}],
+    },
+    "C13": {
+        "level": "exploration",
+        "technique": "property-based testing over (element type x handle/push/erase program x schedule) with an allocator ledger oracle: every allocate/construct matched by exactly one destroy/deallocate, no null or unknown pointer, nothing live after list destruction; instance counting on the payload",
+        "design_ref": "DESIGN.md §5 C13",
+        "text": "Generated programs over T in {Tracked, std::string, int} run with a strict ledger allocator; any destroy/deallocate of null, of a dead or unknown block, any leak at list destruction and any "
+                "construction/destruction imbalance of the payload is a violation. Exploration only.",
+        "assumptions": ["list destroyed only after all handles are released (as the property states)"],
+        "stages": [{"family": "rcu", "flavour": "plain", "target": "C13", "cases": (500000, 6000000), "maxsec": (40, 400)}],
     },
     "C08": {
         "level": "exploration",
